@@ -32,7 +32,7 @@ CHECKS = [
   'technique': 'path-exhaustive symbolic execution of detect_on_trajectory and the cubic refinement on symbolic samples; per-path contracts and the Hermite derivative identity discharged by z3',
   'level': 'For all sample values/times within the bounds: detected on-surface and crossing sets equal the specification, alpha in [0,1], each hit on the plane and inside its bracket with time and state '
            'interpolated by the same parameter, hits time-ordered, nothing lost in dedup when candidates are separated; _hermite_der is the derivative of _hermite_scalar for all arguments; cubic refinement stays in its bracket.',
-  'note': 'N = 3 samples (4 thorough), two concrete normals with symbolic/concrete offset, state dim 6; dense path (segment_refine = 1; 2 thorough) encoded for linear interpolation, its cubic variant only through the shared Hermite helpers; convergence order under refinement is analysis outside the claim'},
+  'note': 'N = 3 samples (4 thorough), two concrete normals with symbolic/concrete offset, state dim 6; dense path (segment_refine = 1; 3 thorough; dyadic sub-interval lengths only) encoded for linear interpolation, its cubic variant only through the shared Hermite helpers; convergence order under refinement is analysis outside the claim'},
  {'id': 'C02',
   'technique': 'B-series value domain driven through the real step/dense-output kernels (symbolic h, theta); coefficient residuals bounded by a solver-checked certificate; explorer for the zero-span shortcut',
   'level': 'For every rooted tree up to the declared order (200 trees to order 8) the B-series of one step of the real kernels equals that of the exact flow; embedded estimators vanish to their order and not beyond; '
